@@ -492,6 +492,17 @@ def project_test(obs, lay, args):
     return {"files": files, "head": [h for h in head if h.strip()], "rc": obs.rc, "crashed": obs.crashed}
 
 
+def choose(keys, is_nontrivial, budget, rng):
+    """A seeded sample of `budget` keys: non-trivial cases first, but one slot in twenty is kept
+    for the trivial ones (empty files, single files ...) so that those stay exercised too."""
+    keys = sorted(keys)
+    rng.shuffle(keys)
+    hard = [k for k in keys if is_nontrivial(k)]
+    easy = [k for k in keys if not is_nontrivial(k)]
+    n_easy = min(len(easy), max(budget // 20, budget - len(hard)))
+    return hard[:budget - n_easy] + easy[:n_easy]
+
+
 def binding_demo(jobs):
     """Self-check of the binding (BUILD_BINDING_DEMO=prediction): the predicted outcome of ONE case
     is altered before the comparison -- the run must end in a VIOLATION."""
